@@ -35,7 +35,7 @@ COMPONENTS = {
     "real": ["eolib.protocol.protocol_enum_meta.ProtocolEnumMeta", "generated enum modules (real generator run per tree)", "enum.IntEnum of the interpreter"],
     "stub_or_harness": ["construction-history generator", "registry snapshot oracle"],
 }
-PROBES = ["memberless_base_called_first", "two_constructing_threads_interleaved", "bool_or_int_subclass_argument", "declared_negative_ordinal", "keyword_call_form", "exhaustive_switch_carrier", "warnings_as_errors", "in_flow_read_then_write", "declared", "unknown", "unknown_repeated", "instance_passed_back", "negative", "huge", "none_member",
+PROBES = ["optional_enum_field_in_flow", "memberless_base_called_first", "two_constructing_threads_interleaved", "bool_or_int_subclass_argument", "declared_negative_ordinal", "keyword_call_form", "exhaustive_switch_carrier", "warnings_as_errors", "in_flow_read_then_write", "declared", "unknown", "unknown_repeated", "instance_passed_back", "negative", "huge", "none_member",
           "boundary_252_253", "unknown_then_declared_same_class"]
 FAULT_KINDS = ["preemption_between_lines", "unknown_ordinal"]
 SHRINK_KEYS = ["ops"]
@@ -254,7 +254,12 @@ def add_carriers(tree):
                 continue
             body = re.search(r'<enum name="%s"[^>]*>(.*?)</enum>' % name, tree[rel], re.S).group(1)
             value_names = re.findall(r'<value name="([A-Za-z0-9_]+)"', body)
+            if not value_names:
+                continue        # a placeholder enum: nothing can carry it
             first = value_names[0]
+            # ... and one that carries it as a trailing optional field
+            extra.append(f'    <struct name="{name}Maybe">\n        <field name="lead" type="char"/>\n'
+                         f'        <field name="opt" type="{name}" optional="true"/>\n    </struct>')
             if 2 <= len(value_names) <= 5:
                 # a switch with a case for EVERY declared value and no default; only the last case carries data
                 cases = "".join(f'            <case value="{v}"/>\n' for v in value_names[:-1])
@@ -336,6 +341,11 @@ def _execute(plan, env):
         classes.append((ns[name], dict(members), shape))
     for ename in sorted(te.spec.enums):
         ed = te.spec.enums[ename]
+        if not ed.values:
+            # a placeholder enum without values: Python's Enum refuses to construct anything from a member-less class
+            # before the metaclass' fallback is reached; only that it generates and imports is checked (C18)
+            res.count("probe.memberless_generated_enum_skipped")
+            continue
         cls = te.bridge.cls(ename)
         ords = sorted(ed.ordinals)
         dense = ords == list(range(ords[0], ords[0] + len(ords)))
@@ -529,6 +539,25 @@ def run_carrier(te, cls, declared, op, res, tr, step):
         return ("in-flow-raised", f"{ename}Carrier.serialize raised {type(e).__name__}: {e} for values {values}")
     if bytes(w2.to_bytearray()) != data:
         return ("in-flow-rewrite", f"{ename}Carrier: read-then-write changed the bytes {data.hex()} -> {bytes(w2.to_bytearray()).hex()} (values {values})")
+    if (ename + "Maybe") in te.spec.classes:
+        maybe = te.bridge.cls(ename + "Maybe")
+        res.count("probe.optional_enum_field_in_flow")
+        for v in values[:2]:
+            w = te.EoWriter()
+            w.add_char(9)
+            getattr(w, "add_" + ed.underlying)(v)
+            data = bytes(w.to_bytearray())
+            try:
+                obj = maybe.deserialize(te.EoReader(data))
+                x = obj.opt
+                w2 = te.EoWriter()
+                maybe.serialize(w2, obj)
+            except BaseException as e:  # noqa
+                return ("in-flow-raised", f"{ename}Maybe: {data.hex()} read and written back raised {type(e).__name__}: {e}")
+            if not isinstance(x, cls) or int(x) != v or (v not in declared and x.name != f"Unrecognized({v})"):
+                return ("in-flow-value", f"{ename}Maybe: integer {v} in the optional field came back as {x!r}")
+            if bytes(w2.to_bytearray()) != data:
+                return ("in-flow-rewrite", f"{ename}Maybe: read-then-write changed the bytes {data.hex()} -> {bytes(w2.to_bytearray()).hex()}")
     return None
 
 
